@@ -134,6 +134,9 @@ def extras(ctx, prop):
                 for cfg in (0, 8):
                     cs.append(("A", "sexh.p.%s.%s.%d" % (ctxname, s_.hex() or "e", cfg), "p", 1, cfg, 2, pre + s_))
         cs += corpora.fam_codes()
+    if prop in ("C14", "C08", "C10", "C03", "C05", "C17", "C04"):
+        kinds = ("q", "p", "h") if prop != "C14" else ("q", "p")
+        cs += corpora.fam_lines(ctx.seed, kinds, depth=2 if q else 3, cfg_stride=1)
     if prop == "C17":
         r = Rng(ctx.seed).fork("cap")
         for i in range(300 if q else 5000):
